@@ -63,6 +63,7 @@ type Thread struct {
 	wake      chan struct{}
 	fn        func()
 	OpIndex   int // maintained by harness: index of op in progress (-1 = none)
+	ClockReads []int64 // instants this thread read from the ticking virtual clock (harness resets per call)
 }
 
 func (t *Thread) Runnable() bool { return t.state == runnable }
